@@ -9,7 +9,9 @@ import monitors_engine as M  # noqa: E402
 LEAN_MODULES = ["KmipModel.Props.C15"]
 RULE = ("sequences of Set/Modify/DeleteAttribute in both forms (1.x name+index; 2.0 current/new/reference) over the "
         "attribute names of the rule table, indices {absent, 0, in range, = length, large, negative}, every object "
-        "type, interleaved with other operations; full store dump compared with the model after every request; "
+        "type, interleaved with other operations; a third of the requests are Continue batches of 2-4 attribute "
+        "operations (a refused operation followed by one that commits: the refused one must leave nothing behind for "
+        "the commit to make permanent); full store dump compared with the model after every request; "
         "non-trivial = an attribute operation addressing an existing object")
 PROFILE = {"ops": {"create": 6, "register": 7, "createKeyPair": 1, "setAttribute": 9, "modifyAttribute": 14,
                    "deleteAttribute": 14, "getAttributes": 4, "getAttributeList": 1, "activate": 1, "revoke": 1, "get": 1,
@@ -25,12 +27,42 @@ def nontrivial(j, o):
                for it, r in zip(j["req"]["items"], o["results"]))
 
 
+ATTR_OPS = ["modifyAttribute", "modifyAttribute", "deleteAttribute", "setAttribute"]
+
+
+def builder(g, E, do, length):
+    for _ in range(length):
+        if g.p(0.33):
+            n = g.ch([2, 2, 3, 4])
+            line = g.line(nitems=n, ops=[g.ch(ATTR_OPS) for _ in range(n)])
+            line["req"]["bopt"] = 1
+        else:
+            line = g.line()
+        do(line)
+        do({"cmd": "dump"})
+        if g.p(0.02):
+            do({"cmd": "restart"})
+
+
 def run(ctx):
-    engine_check.standard_run(ctx, PROFILE, MONITORS, nontrivial, RULE, n_quick=200, n_thorough=3000, length=35)
+    engine_check.standard_run(ctx, PROFILE, MONITORS, nontrivial, RULE, n_quick=200, n_thorough=3000, length=35,
+                              builder="props.c15.builder")
+    cov = dict(ctx.coverage)
+    # scripted: every attribute-operation variant on a rich object, followed in the same batch by a commit elsewhere
+    n = 30 if ctx.tier == "quick" else 400
+    engine_check.standard_run(ctx, {"builtin_policies_only": True}, [M.mon_c15, M.mon_c08], nontrivial, RULE,
+                              n_quick=n, n_thorough=n, length=14, builder="scen_engine.attr_commit_builder",
+                              seeds=[ctx.seed * 1000003 + 800000 + i for i in range(n)])
+    sc = dict(ctx.coverage)
+    ctx.coverage.update(cov)
+    ctx.coverage["evaluations"] = cov.get("evaluations", 0) + sc.get("evaluations", 0)
+    ctx.coverage["distinct_nontrivial"] = cov.get("distinct_nontrivial", 0) + sc.get("distinct_nontrivial", 0)
+    ctx.coverage["attribute_op_then_commit_part"] = {k: sc.get(k) for k in ("evaluations", "distinct_nontrivial",
+                                                                             "correspondence_divergences")}
 
 
 def search(ctx, broken):
-    engine_check.standard_search(ctx, PROFILE, MONITORS, 35)
+    engine_check.standard_search(ctx, PROFILE, MONITORS, 35, builder="props.c15.builder")
     if not ctx.violations:
         # the rule-table obligation broke: try to change each protected attribute through each operation
         import gen_engine
